@@ -26,6 +26,8 @@ import (
 	"time"
 
 	"filippo.io/keygen"
+	"golang.org/x/crypto/cryptobyte"
+	casn1 "golang.org/x/crypto/cryptobyte/asn1"
 )
 
 var (
@@ -133,12 +135,12 @@ func c09MakeCA(path string, parent *c09CA, root int, ctEKU bool, wrongSigner boo
 		parentCert = parent.cert
 		signer = c09Signer{parent.key}
 	}
-	if wrongSigner {
-		signer = c09Signer{c09Key("wrong signer for " + path)}
-	}
 	der, err := x509.CreateCertificate(nil, tmpl, parentCert, &key.PublicKey, signer)
 	if err != nil {
 		panic("VERIF-INCONCLUSIVE: CreateCertificate(" + path + "): " + err.Error())
+	}
+	if wrongSigner {
+		der = c09Resign(der, c09Key("wrong signer for "+path))
 	}
 	cert, err := x509.ParseCertificate(der)
 	if err != nil {
@@ -176,6 +178,28 @@ func c09PreIssuer(ca *c09CA) *c09CA {
 // whose signature was made by an unrelated key.
 func c09BadTwin(ca *c09CA) *c09CA {
 	return c09MakeCA(ca.path+"!", ca.parent, ca.root, ca.ctEKU, true)
+}
+
+// c09Resign replaces the signature of a certificate by a well-formed ECDSA
+// signature over the same TBSCertificate made with an unrelated key.
+func c09Resign(der []byte, wrong *ecdsa.PrivateKey) []byte {
+	in := cryptobyte.String(der)
+	var cert, tbs, alg cryptobyte.String
+	if !in.ReadASN1(&cert, casn1.SEQUENCE) || !cert.ReadASN1Element(&tbs, casn1.SEQUENCE) || !cert.ReadASN1Element(&alg, casn1.SEQUENCE) {
+		panic("VERIF-INCONCLUSIVE: cannot split certificate")
+	}
+	h := sha256.Sum256(tbs)
+	sig, err := wrong.Sign(nil, h[:], crypto.SHA256)
+	if err != nil {
+		panic("VERIF-INCONCLUSIVE: " + err.Error())
+	}
+	var b cryptobyte.Builder
+	b.AddASN1(casn1.SEQUENCE, func(b *cryptobyte.Builder) {
+		b.AddBytes(tbs)
+		b.AddBytes(alg)
+		b.AddASN1BitString(sig)
+	})
+	return b.BytesOrPanic()
 }
 
 // ---- leaves ----
@@ -253,13 +277,12 @@ func c09Leaf(s c09LeafSpec) []byte {
 	case c09TypPoisonBadValue:
 		tmpl.ExtraExtensions = []pkix.Extension{{Id: c09OIDPoison, Critical: true, Value: []byte{4, 0}}}
 	}
-	signer := c09Signer{s.issuer.key}
-	if s.badSig {
-		signer = c09Signer{c09Key("wrong signer for leaves")}
-	}
-	der, err := x509.CreateCertificate(nil, tmpl, s.issuer.cert, &key.PublicKey, signer)
+	der, err := x509.CreateCertificate(nil, tmpl, s.issuer.cert, &key.PublicKey, c09Signer{s.issuer.key})
 	if err != nil {
 		panic("VERIF-INCONCLUSIVE: CreateCertificate(leaf): " + err.Error())
+	}
+	if s.badSig {
+		der = c09Resign(der, c09Key("wrong signer for leaves"))
 	}
 	c09Mu.Lock()
 	c09LeafMem[memo] = der
